@@ -93,7 +93,16 @@ theorem handle_never_blocks_when_closed (s : St) (h : Head) (fr : Framing) (last
 def headOf (d : Delivered) : Method × Bytes × Version × List Header × Option Nat :=
   (d.method, d.url, d.version, d.headers, d.bodyLength)
 
--- (prefix_delivery: statement being proved; see Lemmas/Prefix.lean)
+/-- Prefix delivery: if the client disappears (orderly close) after ANY prefix of its byte stream,
+    the requests delivered are — as heads, in order — a prefix of the requests delivered for the
+    whole stream: nothing is delivered that would not have been, nothing is delivered out of
+    order, and no request with an incomplete head or incomplete buffered body is delivered (such a
+    request is not in the prefix run at all, see `incomplete_head_not_delivered`).  For every
+    stream (well-formed or not), every cut point and every application script. -/
+theorem prefix_delivery (bs : Bytes) (k : Nat) (script : Script) :
+    ((Conn.run (bs.take k) .eof script).delivered.map headOf) <+:
+      ((Conn.run bs .eof script).delivered.map headOf) := by
+  exact run_prefix bs k script
 
 example : (Conn.run b!"GET /a HTTP/1.1\r\n\r\nGET /b HTTP/1.1\r\nHost: x" .eof (fun _ => ⟨0, 0, 1, .drop, false⟩)).statuses = [500]
     ∧ (Conn.run b!"GET /a HTTP/1.1\r\n\r\nGET /b HTTP/1.1\r\nHost: x" .eof (fun _ => ⟨0, 0, 1, .drop, false⟩)).ending = .closed := by decide
